@@ -99,13 +99,26 @@ def _unwrap_shadow(s: Shadow, ctx: Context) -> Any:
     return _next(s.k, "cls")
 
 
+class Inner:
+    """What a generator-based manager wraps (cf. the pytest-trio fixture-manager glue, which finds
+    the nursery to unwrap to in frame.contexts)."""
+
+    def __enter__(self) -> "Inner":
+        return self
+
+    def __exit__(self, *a: Any) -> None:
+        return None
+
+
 @contextlib.contextmanager
 def gcm(k: int):
-    yield k
+    with Inner():
+        yield k
 
 
 def _delegate(j: int):
-    yield j
+    with Inner():
+        yield j
 
 
 @contextlib.contextmanager
@@ -117,8 +130,12 @@ def gcm_yf(k: int):
 @unwrap_context_generator.register(gcm)
 def _unwrap_gcm(frame: Any, ctx: Context) -> Any:
     k = frame.pyframe.f_locals["k"]
+    # the frame handed to the hook is a full extraction on BOTH lookup paths: its contexts are filled in
+    # (even links hold their `with Inner()` themselves; odd links delegate it to a callee via yield from)
+    sees_inner = len(frame.contexts) == 1 and isinstance(frame.contexts[0].obj, Inner)
     LOG.append({"k": k, "gen_hook": True, "inner_present": ctx.inner_stack is not None,
-                "obj_k": getattr(getattr(ctx.obj, "gen", None), "gi_frame", None) is frame.pyframe})
+                "obj_k": getattr(getattr(ctx.obj, "gen", None), "gi_frame", None) is frame.pyframe,
+                "frame_contexts_ok": sees_inner if k % 2 == 0 else len(frame.contexts) == 0})
     return _next(k, "gen")
 
 
@@ -206,6 +223,8 @@ def case(n: Any, ending: str, fam: str, redirect: bool, exiting: bool, entry: in
         for r in hooks:
             if not r["obj_k"]:
                 return f"hook for step {r['k']} saw a frame that is not ctx.obj's generator frame"
+            if not r["frame_contexts_ok"]:
+                return f"hook for step {r['k']} was handed a frame whose contexts are not filled in"
             if r["inner_present"] != (not (exiting and entry == 0)):
                 return f"step {r['k']}: inner_stack presence {r['inner_present']} with exiting={exiting}"
         if ctx.obj is not last:
